@@ -38,6 +38,7 @@ def enabledValue (m : Mode) (e : EnvSlow) : EnabledArg → Bool
 
 inductive DecoKind where
   | require | ensure | snapshot | invariant
+  | requireOnChecker | ensureOnChecker       -- applied to a function that already carries a contract checker
 deriving DecidableEq, Repr, Inhabited
 
 /-- What applying a decorator does to its argument when it is not enabled:
@@ -52,7 +53,8 @@ def applyDecorator (k : DecoKind) (enabled : Bool) : Applied :=
   if enabled then
     -- `snapshot` returns `func` and `invariant` returns `cls` (mutated in place); `require`/`ensure`
     -- applied to a bare function return the new checker
-    { sameObject := (match k with | .snapshot | .invariant => true | _ => false),
+    -- (on a function that already has a checker they extend its lists and return `func`)
+    { sameObject := (match k with | .snapshot | .invariant | .requireOnChecker | .ensureOnChecker => true | _ => false),
       attrsAdded := true, conditionStored := true }
   else { sameObject := true, attrsAdded := false, conditionStored := false }
 
